@@ -27,10 +27,18 @@ def predict(cfg, rng, q=None):
     out, n = [], 0
     if q is None:
         q, _ = build(cfg)
+    stored = np.array(q.grad_grad_B, dtype=float, copy=True) if hasattr(q, 'grad_grad_B') else None
+    stored_L = float(q.L_grad_grad_B[0]) if hasattr(q, 'L_grad_grad_B') and np.ndim(q.L_grad_grad_B) else None
     q.calculate_grad_grad_B_tensor(two_ways=True)
     G = np.asarray(q.grad_grad_B); Ga = np.asarray(q.grad_grad_B_alt)
     def bad(key, what, **kw):
         d = dict(key=key, what=what, cfg=jsonable(cfg)); d.update(kw); out.append(d)
+    # the tensor the object carried when it was handed over (other objects of the same resolution were built after it) is the tensor of THIS object
+    if stored is not None:
+        n += 1
+        if stored.shape != G.shape or np.max(np.abs(stored - G)) > 1e-12 * max(np.max(np.abs(G)), 1e-300):
+            bad('stored', 'the grad grad B tensor stored on the object differs from the one computed from the object now (by %.3g relative): it was overwritten or stale'
+                % (float(np.max(np.abs(stored - G))) / max(float(np.max(np.abs(G))), 1e-300) if stored.shape == G.shape else float('nan')))
     sc = max(np.max(np.abs(G)), 1e-300)
     tail = spectral_tail(q)
     ctol = max(1e-7, 1e4 * tail)
